@@ -9,6 +9,8 @@ From Low Require Import Lib.MachInt Lib.Bits Lib.BitSeq Lib.Lex Lib.Bytes Lib.Bi
 Import ListNotations.
 Open Scope Z_scope.
 
+Local Ltac Zify.zify_post_hook ::= Z.div_mod_to_equations.
+
 (** * lexicographic order, truncation and a common prefix *)
 
 Lemma lex_cmp_firstn_le {A} (cmp : A -> A -> comparison) n : forall a b,
@@ -360,8 +362,6 @@ Qed.
     of the property it returns the same result: the bytes beyond ceil(tobit/8) land in
     the low [40 - spanSize] bits of the window, which are shifted out.  (This is why
     the mutants "clip removed" / "(tobit+8)>>3" are equivalent, docs/selftest-C11.md.) *)
-Ltac Zify.zify_post_hook ::= Z.div_mod_to_equations.
-
 (** any byte limit between the clipped one and the string length selects the same bits *)
 Lemma window_select s from w l :
   bytes_ok s -> 0 <= from -> 1 <= w <= 32 ->
